@@ -129,3 +129,98 @@ Example C01_alias_nonvacuous :
   | _ => false
   end = true.
 Proof. vm_compute. reflexivity. Qed.
+
+(* ---------------------------------------------------------------------------------------------------------------- *)
+(* round 5: every way of BUILDING the two objects that are written, and the gate that pairs them (Model/Pairing.v,    *)
+(* on the extra-dimension model of C13, Model/ExtraDims.v)                                                            *)
+(* ---------------------------------------------------------------------------------------------------------------- *)
+From LasV Require Import Gen.GenExtraBytes Model.ExtraDims Proofs.ExtraDimsProofs Model.Pairing Proofs.PairingProofs.
+
+(* a record paired with a header through any entry point (LasData(header, points=), las.points =, write_points): when the
+   gate accepts, what is written is read back as the very object - the header's format (names, types, order, scales,
+   descriptions), the records byte for byte, and under every dimension NAME the value the caller's record held under it
+   (caller_view cuts the bytes by the RECORD's own format) - whichever builder made the header (eb_last, others) *)
+Theorem C01_paired_object_round_trips : forall gh hex others eb_last gr rex recs std,
+  std_size gh = Some std ->
+  forallb edim_okb hex = true -> nodupb (extra_names hex) = true ->
+  forallb (fun n => negb (mem_name n (std_names gh))) (extra_names hex) = true ->
+  filter is_eb_vlr others = [] ->
+  recs_okb std rex recs = true ->
+  gate gh hex gr rex = true ->
+  exists s w, pair_up gh hex others eb_last gr rex recs = Ok s
+    /\ write_state s = Ok w /\ read_state w = Ok s
+    /\ pair_write_read gh hex others eb_last gr rex recs = Ok s
+    /\ st_fmt s = gh /\ st_extras s = hex
+    /\ w_recs w = recs
+    /\ st_recs s = caller_view std rex recs
+    /\ filter not_eb (st_vlrs s) = others.
+Proof. exact paired_round_trip. Qed.
+Print Assumptions C01_paired_object_round_trips.
+
+(* the gate refuses a record whose extra dimensions have other names - or the SAME names in another order ... *)
+Theorem C01_gate_refuses_other_names : forall gh hex gr rex,
+  extra_names rex <> extra_names hex -> gate gh hex gr rex = false.
+Proof. exact gate_refuses_other_names. Qed.
+Print Assumptions C01_gate_refuses_other_names.
+
+(* ... or another width or element count anywhere (u4 / 2u2 / 4 opaque bytes under one name) ... *)
+Theorem C01_gate_refuses_other_layout : forall gh hex gr rex,
+  map (fun d => (et_size (ed_type d), et_elems (ed_type d))) rex <> map (fun d => (et_size (ed_type d), et_elems (ed_type d))) hex ->
+  gate gh hex gr rex = false.
+Proof. exact gate_refuses_other_layout. Qed.
+Print Assumptions C01_gate_refuses_other_layout.
+
+(* ... or another point format id; and a refused pairing is an error, nothing is built *)
+Theorem C01_gate_refuses_other_id : forall gh hex gr rex, gr <> gh -> gate gh hex gr rex = false.
+Proof. exact gate_refuses_other_id. Qed.
+Print Assumptions C01_gate_refuses_other_id.
+
+Theorem C01_refused_pairing_is_an_error : forall gh hex others eb_last gr rex recs,
+  gate gh hex gr rex = false -> pair_up gh hex others eb_last gr rex recs = Err ELaspy.
+Proof. exact refused_pairing_is_an_error. Qed.
+Print Assumptions C01_refused_pairing_is_an_error.
+
+(* a header built from a PointFormat that already carries extra dimensions - constructor, create, setter, convert, copy,
+   read - has exactly one extra-bytes VLR, whose decoding gives those dimensions in order, with no later call needed; and
+   writing then reading gives the object back *)
+Theorem C01_built_header_describes_format : forall gh hex recs others eb_last std,
+  std_size gh = Some std ->
+  forallb edim_okb hex = true -> nodupb (extra_names hex) = true ->
+  forallb (fun n => negb (mem_name n (std_names gh))) (extra_names hex) = true ->
+  (forall b, In b recs -> len b = std + extras_size hex) -> filter is_eb_vlr others = [] ->
+  exists s, init_ex gh hex recs others eb_last = Ok s
+    /\ st_extras s = hex
+    /\ match hex with
+       | [] => filter is_eb_vlr (st_vlrs s) = []
+       | _ => exists p, filter is_eb_vlr (st_vlrs s) = [eb_vlr p] /\ eb_payload hex = Ok p /\ dec_ebs (length p) p = Ok hex
+       end
+    /\ exists w, write_state s = Ok w /\ read_state w = Ok s.
+Proof. exact built_header_describes_format. Qed.
+Print Assumptions C01_built_header_describes_format.
+
+(* why the gate must look at the ORDER: identifying the extra dimensions by name pairs a record laid out (b, a) with a
+   header describing (a, b), and the reader then finds b's value under "a" *)
+Theorem C01_by_name_gate_exchanges_values :
+  gate_by_name 0 [cx_a; cx_b] 0 [cx_b; cx_a] = true
+  /\ gate 0 [cx_a; cx_b] 0 [cx_b; cx_a] = false
+  /\ field_of [97] (split_rec 20 [cx_b; cx_a] cx_point) = Some [2; 0]
+  /\ field_of [97] (split_rec 20 [cx_a; cx_b] cx_point) = Some [1; 0].
+Proof. exact by_name_gate_exchanges_values. Qed.
+Print Assumptions C01_by_name_gate_exchanges_values.
+
+(* non-vacuity: a header of format 0 built from a format with a scaled int16 pair and 5 opaque bytes, a user VLR after the
+   extra-bytes VLR, two points: the pairing is accepted, written, and read back with both dimensions and their values *)
+Definition ex5_d1 : edim := mkED [104; 49] (TStd 14) (Some ([4602678819172646912; 4607182418800017408], [0; 4621819117588971520])) [100].
+Definition ex5_d2 : edim := mkED [111; 112] (TOpaque 5) None [].
+Definition ex5_pt (k : Z) : list Z := repeat k 20 ++ [k; 0; k + 1; 0] ++ repeat (k + 2) 5.
+Example C01_pairing_nonvacuous :
+  match pair_write_read 0 [ex5_d1; ex5_d2] [mkVlr [85] 7 [] [1; 2; 3]] false 0 [ex5_d1; ex5_d2] [ex5_pt 3; ex5_pt 9] with
+  | Ok s => (length (st_extras s) =? 2)%nat && (length (st_vlrs s) =? 2)%nat
+            && match st_recs s with
+               | [r1; r2] => match field_of [104; 49] r2, field_of [111; 112] r1 with
+                             | Some a, Some b => list_eqb a [9; 0; 10; 0] && list_eqb b [5; 5; 5; 5; 5]
+                             | _, _ => false end
+               | _ => false end
+  | Err _ => false
+  end = true.
+Proof. vm_compute. reflexivity. Qed.
